@@ -114,7 +114,7 @@ fn tx_dec_0x0() {
     }
 }
 
-//@ harness: tx_dec_flag_byte class=F tier=quick bound="0 inputs, 0 outputs, version and lock time zero; flag byte over its full range" timeout=900
+//@ harness: tx_dec_flag_byte class=F tier=thorough bound="0 inputs, 0 outputs, version and lock time zero; flag byte over its full range" timeout=3000
 //@ clause: Transaction decode accepts the input/output-less transaction only with flag byte 0: flag 1 is rejected (nothing could carry a witness), every other flag byte is rejected as a bad witness flag - so no two byte strings that differ in the flag byte decode to equal transactions
 #[kani::proof]
 #[kani::unwind(3)]
